@@ -110,6 +110,13 @@ claim("C17", "Each live line regex is compiled to a z3 formula and shown to matc
       "canonical meaning; no FILE line / non-ASCII text is rejected and falls through to the binary detectors.",
       ST + " for the line regexes; CrossHair decision-tree enumeration for whole sheets", "DESIGN.md 2/C17")
 
+claim("C16", "PARTIAL (Roland histories out of reach). Cursor independence is C11's inductive step; a second export from the same sample object is shown to yield "
+      "the same bytes (real AKAI stack drained twice, symbolic geometry); the renaming routines are shown order- and repetition-independent on symbolic names "
+      "(symx); lazy properties are realised once; and every history of up to 2 (quick) / 3 (thorough) ls/export operations on ONE image object (AKAI and CDDA "
+      "images from independent writers) is compared with fresh objects - histories are chosen by the solver's decision tree and are concrete per path, i.e. "
+      "bounded exhaustive enumeration, said so in the evidence; an AST query shows every open() but export_wav's is read-only.",
+      XT + "; symx for renaming; decision-tree enumeration for operation histories", "DESIGN.md 2/C16")
+
 _pending = "check not built yet in this session (work in progress; see DESIGN.md section 2 for the planned obligations)"
 for _p in ["C01","C02","C03","C04","C05","C06","C07","C09","C10","C11","C12","C13","C14","C15","C16","C17","C18","C19","C20"]:
     if _p not in CHECKS:
